@@ -28,6 +28,51 @@ ASSUMPTIONS = ["header['NAXIS2'] and the band tuple are Python ints",
                "sympy floor() models Python // on non-negative ints"]
 
 
+MUTANTS = [
+    ("float truncation", "AegeanTools/fits_tools.py",
+     "    row_max = header['NAXIS2'] * (band[0]+1) // band[1]",
+     "    row_max = int(header['NAXIS2']/band[1] * (band[0]+1))", "C20-R1"),
+    ("fixed band height", "AegeanTools/fits_tools.py",
+     "    row_min = header['NAXIS2'] * band[0] // band[1]\n    row_max = "
+     "header['NAXIS2'] * (band[0]+1) // band[1]",
+     "    band_height = header['NAXIS2'] // band[1]\n    row_min = "
+     "band_height * band[0]\n    row_max = row_min + band_height", "C20-R1"),
+    ("overlapping bands", "AegeanTools/fits_tools.py",
+     "    row_max = header['NAXIS2'] * (band[0]+1) // band[1]",
+     "    row_max = header['NAXIS2'] * (band[0]+1) // band[1] + 1",
+     "C20-R1"),
+    ("compressed header untouched", "AegeanTools/fits_tools.py",
+     "        data = hdulist[0].data[row_min:row_max, :]\n        # adjust "
+     "the header to match the data shape\n        header['NAXIS2'] = "
+     "row_max-row_min\n        header['CRPIX2'] -= row_min\n        return "
+     "data, header",
+     "        data = hdulist[0].data[row_min:row_max, :]\n        return "
+     "data, header", "C20-R2"),
+    ("crpix not shifted", "AegeanTools/fits_tools.py",
+     "    header['NAXIS2'] = row_max-row_min\n    header['CRPIX2'] -= "
+     "row_min\n    return data, header",
+     "    header['NAXIS2'] = row_max-row_min\n    return data, header",
+     "C20-R2"),
+    ("band equal to total accepted", "AegeanTools/fits_tools.py",
+     "    elif band[0] >= band[1]:", "    elif band[0] > band[1]:",
+     "C20-R3"),
+    ("negative band accepted", "AegeanTools/fits_tools.py",
+     "    elif band[0] < 0:\n        raise AegeanError(\"band[0] number {0} "
+     "not valid\".format(band[0]))\n", "", "C20-R3"),
+    ("header uses other bound", "AegeanTools/fits_tools.py",
+     "    header['NAXIS2'] = row_max-row_min\n    header['CRPIX2'] -= "
+     "row_min\n    return data, header",
+     "    header['NAXIS2'] = row_max-row_min\n    header['CRPIX2'] -= "
+     "row_max\n    return data, header", "C20-R4"),
+]
+TWINS = [
+    ("explicit floor division helper", "AegeanTools/fits_tools.py",
+     "    row_min = header['NAXIS2'] * band[0] // band[1]",
+     "    row_min = (band[0] * header['NAXIS2']) // band[1]"),
+]
+
+
+
 def run(ctx):
     prog = ctx.prog
     fi = prog.func("fits_tools.load_image_band")
@@ -94,6 +139,16 @@ def run(ctx):
         tr.env["%s['NAXIS2']" % "header"] = N
         tr.env[band + "[0]"] = i
         tr.env[band + "[1]"] = n
+        # value-number the simple assignments that precede the definition
+        for st in sorted((x for x in walk_no_nested(fi.node)
+                          if isinstance(x, ast.Assign) and
+                          isinstance(x.targets[0], ast.Name) and
+                          x.lineno < d.lineno), key=lambda x: x.lineno):
+            try:
+                tr.exec([st])
+            except sym.Untranslatable:
+                pass
+        tr.env["%s['NAXIS2']" % "header"] = N
         try:
             exprs[b] = tr.expr(v)
         except sym.Untranslatable as e:
